@@ -556,6 +556,37 @@ def rule_f_cmp(ctx, f, tag):
            "Value::cmp returns a literal Ordering::Equal for operand pairs not matched by an arm "
            "(e.g. arrays whose partial_cmp is None because of a NaN element): cmp == Equal while == is false",
            "%s:%d" % (bad[0][0].file, bad[0][1]) if bad else cmp_.where)
+    # F-TOTAL (added after seeded change C08): `==` and `partial_cmp` treat -0.0 and +0.0 as equal, `f64::total_cmp`
+    # does not. So `cmp` may consult total_cmp only where partial_cmp has already said None (NaN): inside the closure
+    # given to `partial_cmp(..).unwrap_or_else(..)`, or under the None arm of a match on its result.
+    for b in fam:
+        for c in mir.calls(b):
+            if not (c.is_("total_cmp") and "f64" in c.callee):
+                continue
+            ok = False
+            if b.id != cmp_.id:
+                # a closure: how is it used in its parent?
+                for pb in fam:
+                    for pc in mir.calls(pb):
+                        if pc.callee.rsplit("::", 1)[-1] in ("unwrap_or_else", "map_or_else", "or_else") and pc.args:
+                            uses_closure = any(mir.origin(pb, a)[0] == "rv" and mir.origin(pb, a)[1][0] == "agg" and
+                                               mir.origin(pb, a)[1][2] == b.id for a in pc.args[1:])
+                            ro = mir.origin(pb, pc.args[0])
+                            if uses_closure and ro[0] == "call" and ro[1].is_("partial_cmp"):
+                                ok = True
+            else:
+                for sb, place, adt, arms, other in mir.discr_switches(b, None):
+                    if not adt.endswith("option::Option"):
+                        continue
+                    so = mir.origin(b, ["c", [place[0], []]])
+                    if so[0] == "call" and so[1].is_("partial_cmp"):
+                        none_edge = arms.get("0", other)
+                        if none_edge is not None and mir.block_dominates(b, none_edge, c.b):
+                            ok = True
+            ctx.ob("F-CMP", tag + "Value::cmp:total_cmp-only-after-partial_cmp-None", ok,
+                   "total_cmp is consulted only where partial_cmp returned None" if ok else
+                   "total_cmp decides the order of two floats that partial_cmp/== can compare: -0.0 and +0.0 are == but cmp != Equal "
+                   "(two equal keys can then coexist in a Dict)", c.where)
     # the comparison must exist at all: cmp consults partial_cmp or compares payloads
     uses = [c for b in fam for c in mir.calls(b) if c.is_("partial_cmp", "total_cmp", "cmp")]
     ctx.floor("F-CMP", tag + "comparisons consulted by Value::cmp", len(uses), 1)
